@@ -99,11 +99,13 @@ func (c *conn) Call(ctx context.Context, method string, params, result any) (id 
 
 	c.pendingMu.Lock()
 	c.pending[id] = rchan
+	verifPending(c, "reg", id, true)
 	c.pendingMu.Unlock()
 
 	defer func() {
 		c.pendingMu.Lock()
 		delete(c.pending, id)
+		verifPending(c, "del", id, false)
 		c.pendingMu.Unlock()
 	}()
 
@@ -174,7 +176,9 @@ func (c *conn) replier(req Message) Replier {
 
 func (c *conn) write(ctx context.Context, msg Message) (int64, error) {
 	c.writeMu.Lock()
+	verifWrite(c, "wbeg", msg, nil)
 	n, err := c.stream.Write(ctx, msg)
+	verifWrite(c, "wend", msg, err)
 	c.writeMu.Unlock()
 	if err != nil {
 		return 0, fmt.Errorf("write to stream: %w", err)
@@ -211,6 +215,7 @@ func (c *conn) run(ctx context.Context, handler Handler) {
 			// have an id to send the response back to the caller.
 			c.pendingMu.Lock()
 			rchan, ok := c.pending[msg.id]
+			verifPending(c, "disp", msg.id, ok)
 			c.pendingMu.Unlock()
 			if ok {
 				rchan <- msg
